@@ -381,3 +381,60 @@ def ob_merge_item_values(n0: int, v0: int, v1: int, v2: int, d0: int, d1: int, o
         if a is not b:
             return False
     return True
+
+
+# --------------------------------------------------------------------------------------------- debounce: item values
+class _S29(str):
+    """a log line (str) that remembers which input item it is"""
+    idx = -1
+
+
+_LINES29 = ["__COMPLETE__", "", "a", "__complete__"]
+
+
+NDV29 = B(2, 3)   # items / max window in ob_debounce_item_values
+
+
+@obligation(quick=150, thorough=400, partitions_quick=[f"v0 == {v} and v1 == {w}" for v in range(len(_LINES29)) for w in range(len(_LINES29))],
+            partitions_thorough=[f"v0 == {v} and v1 == {w} and n == {k}" for v in range(len(_LINES29)) for w in range(len(_LINES29)) for k in (2, 3)],
+            what="debounced_sorted_prefix forwards ITEMS, whatever their text: log lines drawn from {'__COMPLETE__', '', 'a', '__complete__'} "
+                 "(the first is the text of the debouncer's own marker) at symbolic instants around the window, keyed by arrival index: every "
+                 "input item exactly once, in arrival order",
+            bounds={"items": "2 (thorough 3) strings from a pool of 4", "arrival instants": "0..3 (non-decreasing)", "debounce": "1..2", "max window": "1..2 (thorough 3)", "done-set order": "both"})
+def ob_debounce_item_values(n: int, v0: int, v1: int, v2: int, deb: int, maxw: int, t0: int, t1: int, t2: int, rev: bool) -> bool:
+    """
+    pre: 2 <= n <= NDV29 and 0 <= v0 < 4 and 0 <= v1 < 4 and 0 <= v2 < 4 and 1 <= deb <= 2 and 1 <= maxw <= NDV29
+    pre: 0 <= t0 <= t1 <= t2 <= 3 and (n > 2 or (t2 == t1 and v2 == 0))
+    post: _
+    """
+    items = []
+    for v in (v0, v1, v2):
+        for k in range(len(_LINES29)):
+            if v == k:
+                s = _S29(_LINES29[k])
+                s.idx = len(items)
+                items.append(s)
+    items = items[:3 if n == 3 else 2]
+    ts = [t0, t1, t2]
+    loop = SymLoop()
+    out = []
+
+    async def inner():
+        prev = 0
+        for i in range(len(items)):
+            await asyncio.sleep(ts[i] - prev)
+            prev = ts[i]
+            yield items[i]
+
+    async def main():
+        async for it in iu.debounced_sorted_prefix(inner(), key=lambda s: s.idx, debounce_seconds=deb, max_window_seconds=maxw):
+            out.append(it)
+
+    with _Patched(1 if rev else 0):
+        loop.run_until_complete(main())
+    if len(out) != len(items):
+        return False
+    for a, b in zip(out, items):
+        if a is not b:
+            return False
+    return True
